@@ -75,11 +75,15 @@ Definition dup_ids_of (fo : forest) : list nat :=
 
 Definition is_gene (h : hog) : bool := match h with HGene _ _ => true | _ => false end.
 
-(* the forest is aligned level-by-level with the species tree (C02) *)
-Definition wfb (t : stree) (fo : forest) : bool :=
+(* the forest is aligned level-by-level with the species tree (C02).
+   wfbc: what the analysis theorems (C05-C10, C16) need; wfb adds that no duplication id is used under two
+   different HOGs - the harness evaluates wfb on the implementation's forest. *)
+Definition wfbc (t : stree) (fo : forest) : bool :=
   forallb (wf_node t) (fo_roots fo)
   && forallb (fun h => negb (is_gene h)) (fo_tops fo)
   && forallb is_gene (fo_singles fo)
   && nodup_nat (oids_of fo)
-  && nodupb (gene_ids_of fo)
-  && nodup_nat (dup_ids_of fo).
+  && nodupb (gene_ids_of fo).
+
+Definition wfb (t : stree) (fo : forest) : bool :=
+  wfbc t fo && nodup_nat (dup_ids_of fo).
